@@ -37,6 +37,7 @@ from oqupy.base_api import BaseAPIClass
 from oqupy.config import MAX_DKMAX, DEFAULT_TOLERANCE, MAX_SYS_SAMPLES
 from oqupy.config import INTEGRATE_EPSREL, SUBDIV_LIMIT
 from oqupy.config import TEMPO_BACKEND_CONFIG
+from oqupy.config import NpDtype
 from oqupy.bath_correlations import BaseCorrelations, CustomSD
 from oqupy.dynamics import Dynamics, MeanFieldDynamics
 from oqupy.system import BaseSystem, System, TimeDependentSystem,\
@@ -1296,6 +1297,9 @@ def _tempo_physical_input_parse(
             initial_state.shape == (hs_dim, hs_dim),
             "Initial sate must be a square matrix of " \
                 + f"dimension {hs_dim}x{hs_dim}.")
+        # keep an own copy: the computation must not follow later changes of
+        # the caller's array (whatever its memory layout)
+        initial_state = np.array(initial_state, dtype=NpDtype)
 
     check_isinstance(bath, Bath, 'bath')
 
